@@ -2,7 +2,7 @@
 
 For every (cell c, quadrature point q) a dense generalised B-operator maps each global unknown of a field to its
 contribution to the test tensor:  value space -> vector of length D (D = 3 for plane-strain / axisymmetric fields, zero
-padded), gradient space -> D x D tensor (zero padded for plane strain; hoop entry dF33 = h_a / R on the radial unknown for
+padded for plane strain, hoop entry h_a / R on the radial unknown for axisymmetric fields), gradient space -> D x D tensor (zero padded for plane strain; hoop entry dF33 = h_a / R on the radial unknown for
 axisymmetric fields).  Then
 
     L  += B_v . f(q,c) * w           K += B_v . f(q,c) . B_u * w
@@ -43,6 +43,10 @@ def B_operator(field, grad, q, c, R=None):
         for a, pt in enumerate(cells[c]):
             for i in range(dim):
                 B[dim * pt + i, i] += h[a]
+            if k == "axi" and R is not None:
+                # felupe gives the third component of an axisymmetric VALUE test / trial space the same meaning as the
+                # (3, 3) component of the gradient space: it acts on the radial unknown as h_a / R
+                B[dim * pt + 1, 2] += h[a] / R
         return B
     cc = 0 if reg.dhdX.shape[-1] == 1 else c  # uniform regions store one cell
     dh = reg.dhdX[:, :, q, cc]
